@@ -365,6 +365,41 @@ def run(P, chk, tier):
             chk.site(r4, f, ir.loc(node), "users[%s]" % xk, not bad, "; ".join(sorted(set(why))) if bad else
                      "index is the guarded result of the destination lookup")
 
+    # ------------------------------------------------------------------ R9
+    r9 = chk.rule("C04.R9", "raw datagrams go to the session they are labelled for",
+                  "every send_raw(fd, buf, len, U, cmd, Q) hands over a query Q whose address is that of session U: "
+                  "Q is &users[U].q (the peer address remembered for U), or the function's own incoming query in a raw "
+                  "handler that took U from that very datagram; and the socket is chosen by an address of the same session",
+                  "E6 call sites + E1 equalities", floor=2)
+    nraw = 0
+    for f in P.funcs(SU):
+        an = None
+        for b, c in f.calls("send_raw"):
+            a = c.get("a", [])
+            if len(a) != 6:
+                chk.undecided(r9, f, ir.loc(c), pp(c)[:60], "send_raw() no longer takes the six arguments this rule knows")
+                continue
+            nraw += 1
+            uk = pp(sk(a[3]))
+            q = sk(a[5])
+            qparams = {p_["ref"]["name"] for p_ in f.params if (p_.get("t") or {}).get("k") == "ptr"}
+            if q.get("k") == "Ref" and q["ref"].get("rk") == "param":
+                chk.site(r9, f, ir.loc(c), pp(c)[:60], True, "answers the query this handler was given (%s)" % pp(q))
+                continue
+            m = re.match(r"^&users\[(.+)\]\.(q|q_sendrealsoon)$", pp(q))
+            okq = False
+            if m:
+                okq = m.group(1) == uk
+                if not okq:
+                    an = an or E.analysis(f)
+                    ds = an.before_node(c["n"]) or []
+                    okq = bool(ds) and all(guard.d_holds(d, "==", m.group(1), uk) for d in ds)
+            chk.site(r9, f, ir.loc(c), pp(c)[:60], okq,
+                     "address of session %s for a datagram labelled %s" % (m.group(1) if m else pp(q), uk) if okq else
+                     "the datagram is labelled for session %s but sent to the address held in %s" % (uk, pp(q)))
+    if nraw == 0:
+        raise AnalysisBroken("C04.R9: no send_raw call found")
+
     # ------------------------------------------------------------------ R5
     r5 = chk.rule("C04.R5", "slot take-over condition",
                   "find_available_user returns slot i only on paths where users[i] was unused or expired "
